@@ -96,9 +96,13 @@ Definition tok (t : tree) : Prop :=
      p <> [] /\ forallb valid_name p = true /\ has_reserved p = false)
   /\ (forall p q v w, leaf t p = Some v -> leaf t q = Some w -> is_strict_prefix p q = false).
 
-(** Untracked entries not in the way of the tree. *)
+(** No entry at the root path itself. *)
+Definition nonroot (u : fs) : Prop := forall x e, lookup u x = Some e -> x <> [].
+
+(** Untracked entries not in the way of the tree. (The list [u] need not spell out the
+    directories above its entries: [expected] supplies them.) *)
 Definition uok (u : fs) (t : tree) : Prop :=
-  wf_fs u /\ anchor u /\
+  nonroot u /\ anchor u /\
   forall x e, lookup u x = Some e ->
     (forall p v, leaf t p = Some v -> is_prefix p x = false)
     /\ ((exists p v, leaf t p = Some v /\ is_strict_prefix x p = true) ->
@@ -417,7 +421,7 @@ Proof.
   (* entries of U exist on the disk f *)
   assert (HUf : forall w x, lookup U w = Some x -> lookup f w <> None /\ w <> p).
   { intros w x Hw. destruct HuA as [Hwf [_ H3]]. destruct (H3 w x Hw) as [C _].
-    assert (Hwne : w <> []) by (apply Hwf in Hw; tauto).
+    assert (Hwne : w <> []) by (apply Hwf in Hw; tauto || exact Hw).
     split.
     - rewrite Hm, expected_cons by assumption.
       destruct (leaf A w) as [v|] eqn:E; [discriminate|].
